@@ -55,6 +55,16 @@ impl Formatter for EmptyLineRemover {
             return (byte_pos, byte_pos);
         }
 
+        // The line break is only an empty line if nothing but blanks precedes it on its line.
+        let is_blank_line = bytes[..byte_pos]
+            .iter()
+            .rev()
+            .take_while(|b| **b != b'\n')
+            .all(|b| *b == b' ' || *b == b'\t');
+        if !is_blank_line {
+            return (byte_pos, byte_pos);
+        }
+
         let is_not_next_line_empty = find_next_line_break_pos(content, bytes, byte_pos, true)
             .and_then(|pos| find_next_line_break_pos(content, bytes, pos + 1, true))
             .is_none();
